@@ -8,9 +8,9 @@ import (
 	"fmt"
 	"os"
 	"path/filepath"
+	"sort"
 	"strings"
 
-	"github.com/JunNishimura/Goit/internal/file"
 	"github.com/JunNishimura/Goit/internal/object"
 	"github.com/JunNishimura/Goit/internal/store"
 	"github.com/spf13/cobra"
@@ -28,12 +28,9 @@ func restoreIndex(rootGoitPath, path string, index *store.Index, tree *object.Tr
 		// restore index
 		if isNodeFound { // if the file is updated
 			// change hash
-			isUpdated, err := index.Update(rootGoitPath, node.Hash, []byte(path))
-			if err != nil {
+			// nothing is updated if the entry already equals the one of HEAD, which is fine
+			if _, err := index.Update(rootGoitPath, node.Hash, []byte(path)); err != nil {
 				return fmt.Errorf("fail to update index: %w", err)
-			}
-			if !isUpdated {
-				return errors.New("fail to restore index")
 			}
 		} else { // if the file is newly added
 			// delete entry
@@ -56,6 +53,52 @@ func restoreIndex(rootGoitPath, path string, index *store.Index, tree *object.Tr
 	}
 
 	return nil
+}
+
+// getStagedTargets returns the paths known to the index or to the tree of HEAD that the path names
+func getStagedTargets(path string, index *store.Index, tree *object.Tree) []string {
+	pathSet := make(map[string]struct{})
+	if _, _, isEntryFound := index.GetEntry([]byte(path)); isEntryFound {
+		pathSet[path] = struct{}{}
+	}
+	for _, entry := range index.GetEntriesByDirectory(path) {
+		pathSet[string(entry.Path)] = struct{}{}
+	}
+	if node, isNodeFound := object.GetNode(tree.Children, path); isNodeFound {
+		if len(node.Children) == 0 {
+			pathSet[path] = struct{}{}
+		} else {
+			// node paths start with the name of the node, which is the last element of path
+			for _, nodePath := range node.GetPaths() {
+				pathSet[path+strings.TrimPrefix(nodePath, node.Name)] = struct{}{}
+			}
+		}
+	}
+
+	paths := make([]string, 0, len(pathSet))
+	for p := range pathSet {
+		paths = append(paths, p)
+	}
+	sort.Strings(paths)
+
+	return paths
+}
+
+// appendNewPaths appends the paths that are not in targets yet, so that a path named twice is restored once
+func appendNewPaths(targets, paths []string) []string {
+	for _, path := range paths {
+		isNew := true
+		for _, target := range targets {
+			if target == path {
+				isNew = false
+				break
+			}
+		}
+		if isNew {
+			targets = append(targets, path)
+		}
+	}
+	return targets
 }
 
 func restoreWorkingDirectory(rootGoitPath, path string, index *store.Index) error {
@@ -140,134 +183,52 @@ var restoreCmd = &cobra.Command{
 				return fmt.Errorf("fail to get tree: %w", err)
 			}
 
+			// the targets of an arg are the paths known to the index or to HEAD that the arg names:
+			// the arg itself, or everything beneath it if it is a directory,
+			// whether or not it still exists in the working tree
+			var targets []string
 			for _, arg := range args {
-				argAbsPath, err := filepath.Abs(arg)
-				if err != nil {
-					return fmt.Errorf("fail to get arg abs path: %w", err)
+				cleanedArg := filepath.Clean(arg)
+				cleanedArg = strings.ReplaceAll(cleanedArg, `\`, "/")
+
+				paths := getStagedTargets(cleanedArg, client.Idx, tree)
+				if len(paths) == 0 {
+					return fmt.Errorf("error: pathspec '%s' did not match any file(s) known to goit", arg)
 				}
-				f, err := os.Stat(argAbsPath)
-				if os.IsNotExist(err) { // even if the file is not found, the file might be the deleted file
-					// get node
-					cleanedArg := filepath.Clean(arg)
-					cleanedArg = strings.ReplaceAll(cleanedArg, `\`, "/")
-					node, isNodeFound := object.GetNode(tree.Children, cleanedArg)
-					if !isNodeFound {
-						return fmt.Errorf("error: pathspec '%s' did not match any file(s) known to goit", arg)
-					}
+				targets = appendNewPaths(targets, paths)
+			}
 
-					// check if the arg is dir or not
-					if len(node.Children) > 0 { // node is directory
-						paths := node.GetPaths()
-
-						for _, path := range paths {
-							if err := restoreIndex(client.RootGoitPath, path, client.Idx, tree); err != nil {
-								return err
-							}
-						}
-					} else { // node is a file
-						if err := restoreIndex(client.RootGoitPath, cleanedArg, client.Idx, tree); err != nil {
-							return err
-						}
-					}
-
-					continue
-				}
-
-				if f.IsDir() { // directory
-					filePaths, err := file.GetFilePathsUnderDirectory(argAbsPath)
-					if err != nil {
-						return fmt.Errorf("fail to get file path under directory: %w", err)
-					}
-					for _, filePath := range filePaths {
-						curPath, err := os.Getwd()
-						if err != nil {
-							return fmt.Errorf("fail to get current directory: %w", err)
-						}
-						relPath, err := filepath.Rel(curPath, filePath)
-						if err != nil {
-							return fmt.Errorf("fail to get relative path: %w", err)
-						}
-						cleanedRelPath := strings.ReplaceAll(relPath, `\`, "/")
-
-						// restore index
-						if err := restoreIndex(client.RootGoitPath, cleanedRelPath, client.Idx, tree); err != nil {
-							return err
-						}
-					}
-				} else { // file
-					cleanedArg := filepath.Clean(arg)
-					cleanedArg = strings.ReplaceAll(cleanedArg, `\`, "/")
-
-					// restore index
-					if err := restoreIndex(client.RootGoitPath, cleanedArg, client.Idx, tree); err != nil {
-						return err
-					}
+			for _, path := range targets {
+				if err := restoreIndex(client.RootGoitPath, path, client.Idx, tree); err != nil {
+					return err
 				}
 			}
 		} else {
 			// execute restore working directory
+			// the targets of an arg are the registered paths it names:
+			// the arg itself, or every registered path beneath it if it is a directory,
+			// whether or not they still exist in the working tree. untracked files are not touched
+			var targets []string
 			for _, arg := range args {
-				argAbsPath, err := filepath.Abs(arg)
-				if err != nil {
-					return fmt.Errorf("fail to get arg abs path: %w", err)
+				cleanedArg := filepath.Clean(arg)
+				cleanedArg = strings.ReplaceAll(cleanedArg, `\`, "/")
+
+				var paths []string
+				if _, _, isRegistered := client.Idx.GetEntry([]byte(cleanedArg)); isRegistered {
+					paths = append(paths, cleanedArg)
 				}
-				f, err := os.Stat(argAbsPath)
-				if os.IsNotExist(err) {
-					// check if the arg is registered in the index
-					cleanedArg := filepath.Clean(arg)
-					cleanedArg = strings.ReplaceAll(cleanedArg, `\`, "/")
-					_, _, isRegistered := client.Idx.GetEntry([]byte(cleanedArg))
-					isRegisteredAsDir := client.Idx.IsRegisteredAsDirectory(cleanedArg)
-
-					if !(isRegistered || isRegisteredAsDir) {
-						return fmt.Errorf("error: pathspec '%s' did not match any file(s) known to goit", arg)
-					}
-
-					if isRegisteredAsDir {
-						entries := client.Idx.GetEntriesByDirectory(cleanedArg)
-						for _, entry := range entries {
-							if err := restoreWorkingDirectory(client.RootGoitPath, string(entry.Path), client.Idx); err != nil {
-								return err
-							}
-						}
-					} else {
-						if err := restoreWorkingDirectory(client.RootGoitPath, cleanedArg, client.Idx); err != nil {
-							return err
-						}
-					}
-
-					continue
+				for _, entry := range client.Idx.GetEntriesByDirectory(cleanedArg) {
+					paths = append(paths, string(entry.Path))
 				}
+				if len(paths) == 0 {
+					return fmt.Errorf("error: pathspec '%s' did not match any file(s) known to goit", arg)
+				}
+				targets = appendNewPaths(targets, paths)
+			}
 
-				if f.IsDir() { // directory
-					filePaths, err := file.GetFilePathsUnderDirectory(argAbsPath)
-					if err != nil {
-						return fmt.Errorf("fail to get file path under directory: %w", err)
-					}
-					for _, filePath := range filePaths {
-						curPath, err := os.Getwd()
-						if err != nil {
-							return fmt.Errorf("fail to get current directory: %w", err)
-						}
-						relPath, err := filepath.Rel(curPath, filePath)
-						if err != nil {
-							return fmt.Errorf("fail to get relative path: %w", err)
-						}
-						cleanedRelPath := strings.ReplaceAll(relPath, `\`, "/")
-
-						// restore working directory
-						if err := restoreWorkingDirectory(client.RootGoitPath, cleanedRelPath, client.Idx); err != nil {
-							return err
-						}
-					}
-				} else { // file
-					cleanedArg := filepath.Clean(arg)
-					cleanedArg = strings.ReplaceAll(cleanedArg, `\`, "/")
-
-					// restore working directory
-					if err := restoreWorkingDirectory(client.RootGoitPath, cleanedArg, client.Idx); err != nil {
-						return err
-					}
+			for _, path := range targets {
+				if err := restoreWorkingDirectory(client.RootGoitPath, path, client.Idx); err != nil {
+					return err
 				}
 			}
 		}
